@@ -3,11 +3,12 @@ CONSTANTS
   Order <- O3
   Methods <- MBoth
   ChecksSet <- BBoth
-  Policies <- PAll
+  Policies <- PThree
   Variant = "intended"
   MaxPert = 1
   Rounds = 22
   OwnConds <- OCAll
+  Presets <- BBoth
   GenSels <- BBoth
   ScaleRevs <- BBoth
 INVARIANTS C07_OneMove C07_HookOrder C07_Gate C07_OldStay C07_NonRevNow C08_Linear C07_StuckWaits
